@@ -12,8 +12,17 @@
 (* state the operations read (the registered error handlers and the        *)
 (* escaper's table); no operation of the design writes it.  Every          *)
 (* operation's result is Result(op, proc):                                 *)
-(*   render  Template("${x}", output_encoding=cs, encoding_errors=mode)    *)
-(*           .render(x=s): util.FastEncodingBuffer.getvalue encodes the    *)
+(*   render  the text ${x} rendered to bytes with output_encoding=cs,      *)
+(*           encoding_errors=mode, through ROUTE r -- Template.render,     *)
+(*           render_unicode + manual encode, render_context with a bytes   *)
+(*           or str buffer, get_def(..).render / render_unicode (def with   *)
+(*           and without arguments, also via TemplateLookup),              *)
+(*           ModuleTemplate, a top template that reaches the text through  *)
+(*           <%include> / <%inherit> / <%namespace> (the TOP template's    *)
+(*           options apply), options given to TemplateLookup or to         *)
+(*           Template, string / file / module_directory templates.  The    *)
+(*           expected result does not mention the route (RouteIndependent).*)
+(*           util.FastEncodingBuffer.getvalue encodes the                  *)
 (*           joined output with (cs, mode); strict raises on an            *)
 (*           unencodable character, replace -> "?", ignore drops it,       *)
 (*           xmlcharrefreplace -> &#DDD; (CPython's handlers, trusted),    *)
@@ -29,16 +38,17 @@
 (* operation's output.                                                     *)
 (***************************************************************************)
 EXTENDS MC_Escape
-CONSTANTS MaxOps, SessCharsets
+CONSTANTS MaxOps, SessCharsets,
+          Routes       \* entry points of a render (names understood by harness/c10_session.py)
 VARIABLES sess, res, proc
 svars == <<vars, sess, res, proc>>
 
 ErrModes == {"strict", "replace", "ignore", "xmlcharrefreplace", "htmlentityreplace"}
 FilterNames == {"h", "x", "u", "entity", "unescape", "trim", "decode"}
 Strs == DOMAIN InSessStrings                 \* representative strings, by index
-Ops == [k : {"render"}, a : SessCharsets, b : ErrModes, s : Strs]
-       \cup [k : {"encode"}, a : SessCharsets, b : {"htmlentityreplace"}, s : Strs]
-       \cup [k : {"filter"}, a : FilterNames, b : {""}, s : Strs]
+Ops == [k : {"render"}, a : SessCharsets, b : ErrModes, s : Strs, r : Routes]
+       \cup [k : {"encode"}, a : SessCharsets, b : {"htmlentityreplace"}, s : Strs, r : {""}]
+       \cup [k : {"filter"}, a : FilterNames, b : {""}, s : Strs, r : {""}]
 
 Pristine == [registry |-> {"strict", "replace", "ignore", "xmlcharrefreplace", "htmlentityreplace"}, escaper |-> "html.entities"]
 RECURSIVE DecOf(_)
@@ -65,12 +75,15 @@ SInit == Init /\ sess = <<>> /\ res = <<>> /\ proc = Pristine
 Do(op) == /\ Len(sess) < MaxOps /\ sess' = Append(sess, op) /\ res' = Append(res, Result(op, proc))
           /\ proc' = proc                      \* no operation writes process-global state
           /\ UNCHANGED vars
-SRow == [ops |-> [i \in DOMAIN sess' |-> [k |-> sess'[i].k, a |-> sess'[i].a, b |-> sess'[i].b, s |-> sess'[i].s, arg |-> Arg(sess'[i])]],
+SRow == [ops |-> [i \in DOMAIN sess' |-> [k |-> sess'[i].k, a |-> sess'[i].a, b |-> sess'[i].b, s |-> sess'[i].s, r |-> sess'[i].r, arg |-> Arg(sess'[i])]],
          res |-> res']
 SNext == \E op \in Ops : Do(op) /\ PrintT(ToJson(SRow))
 SSpec == SInit /\ [][SNext]_svars
 HistoryIndependent == \A i \in DOMAIN sess : res[i] = Result(sess[i], Pristine)
 ProcUntouched == proc = Pristine
+\* whatever entry point renders the text, the bytes are the same
+RouteIndependent == \A i \in DOMAIN sess : sess[i].k = "render" =>
+                       \A r2 \in Routes : Result([sess[i] EXCEPT !.r = r2], Pristine) = res[i]
 \* within a session the handler's clause of the property holds for every htmlentityreplace operation
 HandlerAlways == \A i \in DOMAIN sess : (sess[i].k \in {"render", "encode"} /\ sess[i].b = "htmlentityreplace")
                                            => res[i] = Encode(InSessStrings[sess[i].s], sess[i].a)
